@@ -477,7 +477,9 @@ def gen_hand_client(r, *, hmax=8, wmax=8, allow_stochastic=True, deterministic_o
                 spec['nest2'] = [r.randrange(i), i]
             elif j < len(chain):
                 spec['nest2'] = [j, r.randint(j + 1, len(chain))]
-    spec['knobs'] = [k for k, on in (('view_covers_grid', align), ('long_strip', strip), ('near_duplicate_states', near_dup), ('nested_chain', 'nest' in spec), ('two_nested_chains', 'nest2' in spec), ('maze', maze)) if on]
+    if r.random() < 0.25:
+        spec['int_actions'] = True
+    spec['knobs'] = [k for k, on in (('view_covers_grid', align), ('long_strip', strip), ('near_duplicate_states', near_dup), ('nested_chain', 'nest' in spec), ('two_nested_chains', 'nest2' in spec), ('maze', maze), ('actions_as_indices', spec.get('int_actions', False))) if on]
     return spec
 
 
